@@ -61,11 +61,29 @@ Fixpoint c14_unrank_left (E : list Z) (k : Z) : list Z :=
   | e :: E' => (k mod e) :: c14_unrank_left E' (k / e)
   end.
 
-(* a sufficient (and, up to reordering of dimensions, the usual) condition for a strided mapping to be
-   unique: going through the dimensions in the given order each stride is positive and at least
-   the extent times the stride of the previous dimension *)
-Fixpoint c14_stride_chain (bound : Z) (ES : list (Z * Z)) : Prop :=
+(* A sufficient condition for a strided mapping to be unique (the usual one, up to the order of the
+   dimensions): with the dimensions listed from the largest stride to the smallest, every stride
+   is at least extent*stride of the next dimension, and the last stride is at least 1.
+   c14_stride_chain_asc is the same condition with the dimensions listed the other way round. *)
+Definition c14_tail_bound (ES : list (Z * Z)) : Z :=
+  match ES with [] => 1 | es :: _ => fst es * snd es end.
+Fixpoint c14_stride_chain (ES : list (Z * Z)) : Prop :=
   match ES with
   | [] => True
-  | (e, s) :: ES' => bound <= s /\ c14_stride_chain (e * s) ES'
+  | es :: ES' => c14_tail_bound ES' <= snd es /\ c14_stride_chain ES'
+  end.
+Definition c14_stride_chain_asc (ES : list (Z * Z)) : Prop := c14_stride_chain (rev ES).
+
+(* well-formedness of a mapping record: a strided mapping carries one non-negative stride per dimension *)
+Definition c14_wf (m : c14_mapping) : Prop :=
+  match c14_lay m with
+  | C14_Stride => length (c14_str m) = length (c14_ext m) /\ Forall (fun s => 0 <= s) (c14_str m)
+  | _ => True
+  end.
+(* "stride vectors that make a unique mapping": the chain condition, dimensions ordered either way *)
+Definition c14_unique (m : c14_mapping) : Prop :=
+  match c14_lay m with
+  | C14_Stride => length (c14_str m) = length (c14_ext m) /\
+                  (c14_stride_chain (combine (c14_ext m) (c14_str m)) \/ c14_stride_chain_asc (combine (c14_ext m) (c14_str m)))
+  | _ => True
   end.
